@@ -113,6 +113,24 @@ def run(c):
         else:
             prog.append(['op', n, OPN.get(op, '?' + repr(op))])
     out['prog'] = prog
+    # further expressions over the SAME field objects (as in one class body): each must mean what its own text means
+    if c.get('also'):
+        out['also'] = []
+        fns = [(txt, compile_expr_into_callable(eval(txt, dict(fields)))) for txt, _ in c['also']]
+        fn0 = compile_expr_into_callable(e)
+        for (txt, lam), (_, fn2) in zip(c['also'], fns):
+            p3 = Stub()
+            for k3, v3 in c['env'].items():
+                setattr(p3, k3, dec(v3))
+            try:
+                d3 = ['ok', enc(fn2(pkt=p3))]
+            except Exception as ex:
+                d3 = ['exc', type(ex).__name__]
+            try:
+                g3 = ['ok', enc(eval('lambda pkt: ' + lam)(p3))]
+            except Exception as ex:
+                g3 = ['exc', type(ex).__name__]
+            out['also'].append([txt, d3, g3])
     env = {k: dec(v) for k, v in c['env'].items()}
     pkt = Stub()
     for k, v in env.items():
